@@ -136,6 +136,22 @@ CLAIMS = {
         note=TB + "User code (children, closures, task waker) is outside the crate by the property's own observation rule."),
 }
 
+SHARED = {
+    "C02": " Also evaluates the necessary conditions this property rests on from other rule sets: the wake/poll handshake (C01 R1.1-R1.8), Occupied-only polling (C05 R5.1), ordered index discipline and in-turn yield (C04 R4.1/R4.2), side-effect-free refusal (C15 R15.2), free-list initialisation (R2.7).",
+    "C03": " Added: lock discipline of the per-slot flag (R3.9), slot-map/waker-list capacity agreement and MARK index provenance (R3.8), compile_fail witnesses (E3) in the quick tier.",
+    "C04": " Added: completeness of the live-task enumeration used by the re-base (R4.3b).",
+    "C06": " Added: exhaustive, vacancy-guarded release loops (R6.6); shared: vacate<=>Ready (C02 R2.1/R2.3), waker allocation freed exactly once (C03 R3.1/R3.4).",
+    "C07": " Added: who-may-vacate (C02 R2.2) so that unwind guards or other code cannot vacate a slot without an output; direct-drain forms of poll are handled.",
+    "C09": " Guard semantics are decided by a finite-grid entailment on the closed form of the fill guard (pull ==> running < capacity; no pull ==> running(+parked) >= capacity), with the exact-shape rule as fallback; the assume-guarantee links (C02 R2.1/R2.4, C15 R15.3/R15.4) are evaluated in this check.",
+    "C10": " The assume-guarantee links (C02 R2.1/R2.4, C15 R15.3/R15.4) are evaluated in this check.",
+    "C11": " Also evaluates the wake/poll handshake (C01), Occupied-only polling (C05 R5.1), slot-map all-or-none (C02 R2.3), and that the unbounded push inserts exactly once on every path.",
+    "C12": " Added: every Waker::wake* call in the crate is on the caller's task waker (the crate never invokes a child slot waker itself).",
+    "C13": " The budget must admit at least one child poll; every loop cycle that polls a child passes the increment and the comparison.",
+    "C15": " Added: try-push forwarders have no side effects of their own (R15.2), every group of an unbounded collection has capacity >= 1 (R15.5).",
+    "C16": " The guard is decided by finite-grid entailment (a pull is admitted only when running + parked < capacity) with the exact-shape rule as fallback; C15 R15.3 (len = running + parked) is evaluated in this check.",
+    "C17": " Handles match, Option::and_then and map/unwrap_or forms of the bound computation; C15 R15.3 is evaluated in this check.",
+}
+
 NOT_APPLICABLE = {}
 
 PENDING = {}
@@ -152,7 +168,7 @@ def main():
             "evidence_file": "/verif/evidence/%s.json" % pid,
             "replay_cmd_template": "./check %s --replay {path}" % pid,
             "engine": "fbfacts+rules",
-            "level_claimed": {"category": "other", "text": c["text"], "design_ref": "DESIGN.md §4 " + pid},
+            "level_claimed": {"category": "other", "text": c["text"] + SHARED.get(pid, ""), "design_ref": "DESIGN.md §4 " + pid + ", §11, §12"},
             "level_note": c["note"],
             "technique": c["technique"],
         })
